@@ -169,9 +169,20 @@ fn case(rng: &mut Rng, rep: &mut Report) {
         "time_model": {"type": "speed_table", "speed_table_input_file": sp.to_string_lossy(), "speed_unit": su.to_string(), "distance_unit": du.to_string(), "time_unit": tu.to_string()},
         "grade_table_grade_unit": gu.to_string(),
         "vehicles": [vehicle],
-        "distance_unit": du.to_string(),
-        "time_unit": tu.to_string(),
     });
+    // the energy model's own distance / time units are independent of its time model's (whose units are the ones the
+    // state features carry): the same, another one, or left to the defaults
+    match rng.below(3) {
+        0 => {
+            params["distance_unit"] = json!(du.to_string());
+            params["time_unit"] = json!(tu.to_string());
+        }
+        1 => {
+            params["distance_unit"] = json!(rng.pick(&U::DISTANCE_UNITS).to_string());
+            params["time_unit"] = json!(rng.pick(&U::TIME_UNITS).to_string());
+        }
+        _ => {}
+    }
     if with_grades {
         params["grade_table_input_file"] = json!(gp.to_string_lossy());
     }
